@@ -239,6 +239,24 @@ type Deep0 struct {
 	Z int64 `thrift:"3"`
 }
 
+// unexported embedded struct types are flattened like exported ones
+type inner struct {
+	X int64  `thrift:"1"`
+	W string `thrift:"5,required"`
+}
+type inner2 struct {
+	inner
+	Q []int16 `thrift:"9"`
+}
+type EmbUnexp struct {
+	inner
+	Y string `thrift:"2"`
+}
+type EmbUnexp2 struct {
+	A bool `thrift:"100"`
+	inner2
+}
+
 type Wide struct {
 	A int8   `thrift:"1,required"`
 	B int16  `thrift:"64,required"`
@@ -250,7 +268,7 @@ type Wide struct {
 
 var library = []reflect.Type{
 	reflect.TypeOf(Inner{}), reflect.TypeOf(EmbVal{}), reflect.TypeOf(EmbPtr{}), reflect.TypeOf(Rec{}), reflect.TypeOf(PtrPtr{}), reflect.TypeOf(EmbPtrPtr{}),
-	reflect.TypeOf(Bools{}), reflect.TypeOf(U{}), reflect.TypeOf(HoldsU{}), reflect.TypeOf(Wide{}), reflect.TypeOf(Deep0{}), reflect.TypeOf([]Rec{}), reflect.TypeOf(map[string]Bools{}), reflect.TypeOf(map[Inner]struct{}{}),
+	reflect.TypeOf(Bools{}), reflect.TypeOf(U{}), reflect.TypeOf(HoldsU{}), reflect.TypeOf(Wide{}), reflect.TypeOf(Deep0{}), reflect.TypeOf(EmbUnexp{}), reflect.TypeOf(EmbUnexp2{}), reflect.TypeOf([]Rec{}), reflect.TypeOf(map[string]Bools{}), reflect.TypeOf(map[Inner]struct{}{}),
 }
 
 // fillLib fills library values: like the generic filler, plus embedded pointers and recursion.
